@@ -93,8 +93,7 @@ fn blank(src: &str) -> Vec<u8> {
                 o[i + 2] = b' ';
                 i += 3;
             } else {
-                // lifetime: drop the tick
-                o[i] = b' ';
+                // lifetime: the tick stays (a punctuation token followed by the lifetime's name)
                 i += 1;
             }
         } else {
@@ -169,6 +168,8 @@ struct FnItem {
     slice_param: bool,
     /// two or more `Fd` parameters or two or more `UnixStr` parameters
     pair_param: bool,
+    /// (parameter name, normalised type) in declaration order; `self` receivers are skipped
+    params: Vec<(String, String)>,
     /// (path-qualified-with-crate-prefix?, preceded-by-dot?, name) of every `name(` in the body
     calls: Vec<(bool, String)>,
 }
@@ -177,6 +178,62 @@ struct FileScan {
     fns: Vec<FnItem>,
     imported: BTreeSet<String>, // identifiers mentioned in `use crate::…` / `use super::…` statements
     test_mods: Vec<String>,     // `#[cfg(test)] mod x;`
+}
+
+/// `a: T, mut b: &'x [U], c: crate::p::V<W>` → [("a","T"), ("b","&[U]"), ("c","V<W>")]
+fn split_params(t: &[Tok]) -> Vec<(String, String)> {
+    let mut out = Vec::new();
+    let mut depth = 0i32;
+    let mut cur: Vec<&Tok> = Vec::new();
+    let mut groups: Vec<Vec<&Tok>> = Vec::new();
+    for (i, x) in t.iter().enumerate() {
+        match x {
+            Tok::P('(') | Tok::P('[') | Tok::P('<') => depth += 1,
+            Tok::P(')') | Tok::P(']') => depth -= 1,
+            // `->` inside fn-pointer types is not a closing angle bracket
+            Tok::P('>') if !(i > 0 && is(&t[i - 1], '-')) => depth -= 1,
+            Tok::P(',') if depth == 0 => {
+                groups.push(std::mem::take(&mut cur));
+                continue;
+            }
+            _ => {}
+        }
+        cur.push(x);
+    }
+    if !cur.is_empty() {
+        groups.push(cur);
+    }
+    for g in groups {
+        let Some(colon) = g.iter().position(|x| is(x, ':')) else { continue };
+        // a `::` before any single colon cannot occur in a parameter pattern of these sources
+        let name = g[..colon].iter().rev().find_map(|x| id(x)).unwrap_or("_").to_string();
+        let mut ty = String::new();
+        let tt = &g[colon + 1..];
+        let mut i = 0;
+        while i < tt.len() {
+            match tt[i] {
+                Tok::P('\'') => {
+                    i += 2; // the tick and the lifetime's name
+                    continue;
+                }
+                Tok::Id(s) => {
+                    // drop path prefixes `seg::`
+                    if i + 2 < tt.len() && is(tt[i + 1], ':') && is(tt[i + 2], ':') {
+                        i += 3;
+                        continue;
+                    }
+                    if !ty.is_empty() && ty.chars().last().is_some_and(|c| c.is_ascii_alphanumeric() || c == '_') {
+                        ty.push(' ');
+                    }
+                    ty.push_str(s);
+                }
+                Tok::P(c) => ty.push(*c),
+            }
+            i += 1;
+        }
+        out.push((name, ty));
+    }
+    out
 }
 
 fn cfg_is_test(attrs: &[Vec<Tok>]) -> bool {
@@ -310,7 +367,15 @@ fn scan_items(t: &[Tok], raw_attr_text: &dyn Fn(usize, usize) -> String, pos: &[
                         }
                         None => (false, false),
                     };
-                    out.fns.push(FnItem { file_mod: file_mod.to_string(), name: name.to_string(), exported, direct, slice_param, pair_param, calls });
+                    let params = match hdr.iter().position(|x| is(x, '(')).filter(|&q| q > k) {
+                        Some(q) => {
+                            let abs = start + q;
+                            let close = matching(t, abs);
+                            split_params(&t[abs + 1..close])
+                        }
+                        None => Vec::new(),
+                    };
+                    out.fns.push(FnItem { file_mod: file_mod.to_string(), name: name.to_string(), exported, direct, slice_param, pair_param, params, calls });
                 }
             }
             Some(("mod", k)) => {
@@ -496,12 +561,12 @@ fn main() {
         }
     }
 
-    let mut listed: Vec<(String, String, bool, bool, bool)> = Vec::new();
+    let mut listed: Vec<(String, String, bool, bool, bool, Vec<(String, String)>)> = Vec::new();
     for (_, (_, fs)) in &scans {
         for f in &fs.fns {
             if f.exported && marked.contains(&(f.file_mod.clone(), f.name.clone())) {
-                let e = (f.file_mod.clone(), f.name.clone(), f.direct, f.slice_param, f.pair_param);
-                if !listed.contains(&e) {
+                let e = (f.file_mod.clone(), f.name.clone(), f.direct, f.slice_param, f.pair_param, f.params.clone());
+                if !listed.iter().any(|x| x.0 == e.0 && x.1 == e.1) {
                     listed.push(e);
                 }
             }
@@ -512,8 +577,14 @@ fn main() {
     let mut s = String::new();
     writeln!(s, "/// generated by build.rs from {src}: (module path of the defining file, fn name, body contains `syscall!(` itself, a slice type appears in the parameter list, two or more Fd / two or more UnixStr parameters)").unwrap();
     writeln!(s, "pub const SCANNED: &[(&str, &str, bool, bool, bool)] = &[").unwrap();
-    for (m, n, d, sl, pr) in &listed {
+    for (m, n, d, sl, pr, _) in &listed {
         writeln!(s, "    ({m:?}, {n:?}, {d}, {sl}, {pr}),").unwrap();
+    }
+    writeln!(s, "];").unwrap();
+    writeln!(s, "/// (module path, fn name, [(parameter name, normalised parameter type)])").unwrap();
+    writeln!(s, "pub const SCANNED_PARAMS: &[(&str, &str, &[(&str, &str)])] = &[").unwrap();
+    for (m, n, _, _, _, ps) in &listed {
+        writeln!(s, "    ({m:?}, {n:?}, &{ps:?}),").unwrap();
     }
     writeln!(s, "];").unwrap();
     writeln!(s, "pub const SCANNED_SRC: &str = {src:?};").unwrap();
